@@ -173,6 +173,18 @@ func vpRefTokenize(text []byte) (toks []vpTok, cut bool) {
 func VP_C14_tokens() {
 	L := vpParam("L")
 	text := vpBytes("t", L)
+	if vpParam("OPS") == 1 {
+		// operator-dense alphabet (longer texts at the same cost)
+		for _, c := range text {
+			ok := false
+			for _, a := range []byte("=!.&|?<>+a1 \n") {
+				if c == a {
+					ok = true
+				}
+			}
+			vpAssume(ok)
+		}
+	}
 	want, cut := vpRefTokenize(text)
 	s := CreateScanner(text, nil)
 	same := true
